@@ -20,6 +20,7 @@ import (
 	"os"
 	"path/filepath"
 	"reflect"
+	"sort"
 	"strconv"
 	"strings"
 )
@@ -577,10 +578,73 @@ func (r *rw) fixImports() {
 	r.file.Imports = nil
 }
 
+// writeLiterals collects the string literals of a package: the values its code can tell apart by name.
+func writeLiterals(dir, out string) error {
+	if dir == "" {
+		dir = "."
+	}
+	ents, err := os.ReadDir(dir)
+	if err != nil {
+		return err
+	}
+	fset := token.NewFileSet()
+	set := map[string]bool{}
+	pkgName := ""
+	for _, en := range ents {
+		n := en.Name()
+		if en.IsDir() || !strings.HasSuffix(n, ".go") || strings.HasSuffix(n, "_test.go") {
+			continue
+		}
+		af, err := parser.ParseFile(fset, filepath.Join(dir, n), nil, parser.SkipObjectResolution)
+		if err != nil {
+			return err
+		}
+		pkgName = af.Name.Name
+		skip := map[*ast.BasicLit]bool{}
+		ast.Inspect(af, func(nd ast.Node) bool {
+			switch x := nd.(type) {
+			case *ast.ImportSpec:
+				skip[x.Path] = true
+			case *ast.Field:
+				if x.Tag != nil {
+					skip[x.Tag] = true
+				}
+			case *ast.BasicLit:
+				if x.Kind == token.STRING && !skip[x] {
+					if v, err := strconv.Unquote(x.Value); err == nil {
+						set[v] = true
+					}
+				}
+			}
+			return true
+		})
+	}
+	var vals []string
+	for v := range set {
+		vals = append(vals, v)
+	}
+	sort.Strings(vals)
+	var sb strings.Builder
+	sb.WriteString("//go:build verif\n\n// Code generated by vinstr -literals. DO NOT EDIT.\n\npackage " + pkgName + "\n\nvar verifSrcLiterals = []string{\n")
+	for _, v := range vals {
+		sb.WriteString("\t" + strconv.Quote(v) + ",\n")
+	}
+	sb.WriteString("}\n")
+	return os.WriteFile(out, []byte(sb.String()), 0o644)
+}
+
 func main() {
 	touch := flag.String("touch", "", "comma separated field names whose accesses become Touch points")
 	pkgdir := flag.String("pkg", "", "package directory to type-check (all non-test files)")
+	literals := flag.String("literals", "", "write every string literal of the package's non-test source (struct tags and import paths excluded) to this Go file as var verifSrcLiterals, and exit")
 	flag.Parse()
+	if *literals != "" {
+		if err := writeLiterals(*pkgdir, *literals); err != nil {
+			fmt.Fprintln(os.Stderr, "vinstr:", err)
+			os.Exit(2)
+		}
+		return
+	}
 	files := flag.Args()
 	if len(files) == 0 {
 		fmt.Fprintln(os.Stderr, "vinstr: no files")
